@@ -126,6 +126,20 @@ MatchClauses(e) == LET x == FindList(<<e.call.entry>>, e.call.search)  o == e.ob
 
 \* ---- C10: the algebra of the search syntax, on observed results
 LeafRestrictedObs(sr, res) == {x \in res : \E u \in Unfold(sr).res : LastKey(IdxOf(u.type)) = LeafKeyOf(BaseOfName(u.type)) /\ MatchSegs(u.segs, x)}
+AlgebraOn(o, c) ==
+  LET P == o.parts  whole == ToSet(o.res)
+      anyerr == o.err # "" \/ \E i \in DOMAIN P : P[i].err # "" IN
+  /\ \A i \in DOMAIN P : P[i].err \in {"", "SpilException"}
+  /\ Cardinality(whole) = Len(o.res) /\ \A i \in DOMAIN P : Cardinality(ToSet(P[i].res)) = Len(P[i].res)
+  /\ (anyerr \/
+        (IF c.rule = "union" THEN whole = UNION {ToSet(P[i].res) : i \in DOMAIN P}
+         ELSE IF c.rule = "starstar" THEN whole = UNION {LeafRestrictedObs(c.parts[i], ToSet(P[i].res)) : i \in DOMAIN P}
+         ELSE IF c.rule = "filter" THEN ToSet(P[2].res) = {x \in ToSet(P[1].res) : DGetOr(ResolveFirst(x).fields, c.arg[1], "") = c.arg[2]}
+         ELSE ToSet(P[2].res) = {x \in ToSet(P[1].res) : x[c.arg[1]] = c.arg[2]}))
+\* the same algebra on the real finders (a type-aware finder may legitimately return fewer entries for the "**" rule
+\* than the type-blind list search, never different ones for the other rules)
+AlgebraFsClauses(e) == LET c == e.call  R == e.obs.runs IN
+  [k \in DOMAIN R |-> C("algebra_" \o c.rule \o "_" \o R[k].name, AlgebraOn(R[k], c))]
 AlgebraClauses(e) == LET o == e.obs  c == e.call  P == o.parts
                          whole == ToSet(o.res)
                          anyerr == o.err # "" \/ \E i \in DOMAIN P : P[i].err # "" IN
@@ -196,7 +210,7 @@ FindersClauses(e) == LET c == e.call  R == e.obs.runs IN
            C(R[r].finders[k].name \o (IF R[r].junk THEN "_junk" ELSE ""),
              FinderOk(R[r].finders[k], FinderExpect(R[r].finders[k].name, R[r].junk, c.univ, R[r].L, c.search)))]
      \o [k \in DOMAIN R[r].finders |-> C("c12_" \o R[r].finders[k].name, C12Ok(R[r].finders[k]))]])
-  \o << C("noraise", \A r \in DOMAIN R : \A k \in DOMAIN R[r].finders : R[r].finders[k].err \in {"", "SpilException"}),
+  \o << C("noraise", ~FindList(R[1].L, c.search).pre \/ \A r \in DOMAIN R : \A k \in DOMAIN R[r].finders : R[r].finders[k].err \in {"", "SpilException"}),
         C("junk_changes_nothing", \A k \in DOMAIN R[1].finders : ToSet(R[1].finders[k].res) = ToSet(R[2].finders[k].res) /\ R[1].finders[k].err = R[2].finders[k].err),
         C("finders_agree", ~AllPathBacked(c.search) \/ ~TypeComplete(c.search) \/ ~FindList(R[1].L, c.search).pre \/
                            \A k \in DOMAIN R[1].finders : R[1].finders[k].err # "" \/ ToSet(R[1].finders[k].res) = ToSet(R[1].finders[1].res)),
@@ -238,7 +252,11 @@ GetterClauses(e) == LET c == e.call  o == e.obs  idx == UIdx[FALSE][c.univ]
      C("get_attr", o.found = <<>> \/ o.get_attr = (IF SideDataOf(o.found[1]) = <<>> THEN None ELSE SideDataOf(o.found[1])[1][2])),
      C("getfromall", x.sorted \/ x.err # "" \/
           {JoinStr(r, "/") : r \in UNION {AllHits(idx, u) : u \in {v \in us : GetterOf(v.type) # ""}}} = ToSet(o.all_sids)),
-     C("getfromall_count", x.sorted \/ x.err # "" \/ Cardinality(ToSet(o.all_sids)) <= Len(o.all_sids)) >>
+     C("getfromall_count", x.sorted \/ x.err # "" \/ Cardinality(ToSet(o.all_sids)) <= Len(o.all_sids)),
+     \* where every unfolded type is served by the path Getter, GetFromAll yields the very same records (as a bag)
+     C("getfromall_records", x.sorted \/ x.err # "" \/ (\E u \in us : GetterOf(u.type) # "GetFromPaths") \/
+          (Len(o.all_recs) = Len(o.got) /\
+           \A r \in ToSet(o.all_recs) : Cardinality({i \in DOMAIN o.all_recs : o.all_recs[i] = r}) = Cardinality({i \in DOMAIN o.got : o.got[i] = r}))) >>
 
 Clauses(e) ==
   IF "raised" \in DOMAIN e.obs /\ StrStarts(e.obs.raised, "HARNESS") THEN << C("harness", FALSE) >>
@@ -252,6 +270,7 @@ Clauses(e) ==
          [] e.call.op = "findlist" -> FindListClauses(e)
          [] e.call.op = "match"   -> MatchClauses(e)
          [] e.call.op = "algebra" -> AlgebraClauses(e)
+         [] e.call.op = "algebrafs" -> AlgebraFsClauses(e)
          [] e.call.op = "extrapolate" -> ExtrapolateClauses(e)
          [] e.call.op = "topath"  -> ToPathClauses(e)
          [] e.call.op = "finders" -> FindersClauses(e)
@@ -273,6 +292,7 @@ Tag(e) ==
   ELSE IF e.call.op = "findlist" THEN LET x == FindList(LOf(e.call), e.call.search) IN
         "findlist:" \o (IF x.err # "" THEN "error" ELSE IF ~x.pre THEN "gt-precondition-false"
                         ELSE (IF x.sorted THEN "gt:" ELSE "star:") \o (IF x.res = {} THEN "nothing" ELSE "found"))
+  ELSE IF e.call.op = "algebrafs" THEN "algebrafs:" \o e.call.rule
   ELSE IF e.call.op = "algebra" THEN "algebra:" \o e.call.rule \o ":" \o (IF e.call.rule = "union" THEN e.call.arg[1] ELSE "") \o (IF e.obs.res = <<>> THEN ":empty" ELSE ":found")
   ELSE IF e.call.op = "extrapolate" THEN
         "extrapolate:" \o (IF e.call.cfg.toX = <<>> THEN "none" ELSE IF Len(e.call.cfg.toX) = 1 THEN "one" ELSE "many")
